@@ -15,6 +15,8 @@ LIFE_NOTE = ("Trusted: TLC, the replay harness harness/liferun.py (spy engine en
              "destination, two late replacements); all interleavings up to the depth bound.")
 LIFE_TECH = ("TLA+ state machine Lifecycle.tla model-checked by TLC (MC_Life) with transition assertions; every generated "
              "transition replayed into the real library; compiled functions validated numerically by Trace_Dyn.tla")
+SESS_TECH = (" + TLA+ composition Session.tla (NetBuild x lifecycle over arbitrary graphs) model-checked by TLC (MC_Session) with "
+             "transition assertions; every transition ending in a lifecycle call replayed into the real library")
 
 
 def dyn(text, ref):
@@ -35,23 +37,25 @@ CHECKS = {
     "C03": dyn("Every enumerated case is evaluated through NumPy and through SX and MX functions at compactness 0/1/2; TLC compares each with the specification and the function outputs with the NumPy next states recorded for the same values.", "5/C03"),
     "C04": dyn("Names, sizes and free symbols of every compiled function (compactness -1..3, with/without flows, with declared parameters, SX and MX) are checked by TLC against Compile!LayoutIn/LayoutOut instantiated with the network's own element order; position-only generic arguments are decoded through the specification's layout and every result compared slot by slot.", "5/C04"),
     "C05": dyn("NumPy: the flows every link and origin reports when asked after a step (np.flow) against the specification. Functions: with more_out=True at the three levels (also with symbolic T / capacities / critical densities), TLC checks the reported link and origin flows against the specification and the queue / flow / feed identities on the function's own outputs.", "5/C05"),
-    "C06": build("Every graph reachable through the construction API within the bound: is_valid(False)/(True) on the real network after every replayed transition against the nine conditions stated literally in NetBuild!Valid (verdict, raise-iff-invalid, messages); the returned message list is consumed and the question asked again.", "5/C06"),
-    "C07": dyn("For every valid shape in the bound: is_valid accepts, NumPy steps (own variables 'rand'/'empty' and user arrays), SX and MX step and compile at compactness -1..3, shapes match, outputs finite on the defined admissible domain including exact zeros.", "5/C07"),
-    "C08": build("All interleavings of mutating calls and reads up to the depth bound: after every replayed transition every lookup and per-node view of the real network equals recomputation from the live graph and the specification's value; the model's own invariant CacheCoherent is checked for the invalidation table. A history-complete profile (no two histories merged) and objects shared between networks cover state hidden outside the model.", "5/C08"),
+    "C06": build("Every graph reachable through the construction API within the bound: is_valid(False)/(True) on the real network after every replayed transition against the nine conditions stated literally in NetBuild!Valid (verdict, raise-iff-invalid, messages); the returned message list is consumed and the question asked again; in every other history validity is asked after every call; construction calls that raise part-way (None nodes, malformed link descriptions in bulk calls) are calls of the model, with their partial effects.", "5/C06"),
+    "C07": dyn("For every valid shape in the bound: is_valid accepts, NumPy steps (own variables 'rand'/'empty' and user arrays), SX and MX step and compile at compactness -1..3, shapes match, outputs finite on the defined admissible domain including exact zeros. Second component (Session.tla): every session of construction calls, validation, whole / half-way / late-failing / per-element steps up to the depth bound - whenever the network is valid a whole-network step succeeds, and a network stepped as a whole compiles to a function TLC validates numerically, whatever failed or was replaced before.", "5/C07"),
+    "C08": build("All interleavings of mutating calls and reads up to the depth bound: after every replayed transition every lookup and per-node view of the real network equals recomputation from the live graph and the specification's value; the model's own invariant CacheCoherent is checked for the invalidation table. A history-complete profile (no two histories merged) and objects shared between networks cover state hidden outside the model. Construction calls that raise part-way after changing the graph are calls of the model: the lookups must be fresh after them too.", "5/C08"),
     "C09": build("All call sequences up to the bound and all path shapes up to length 4 (quick) / 6 (thorough): graph after each call equals NetBuild's post-state and the declaratively Described graph; malformed paths raise; no non-node object becomes a node; bulk arguments are spelled as list / tuple / generator / zip.", "5/C09"),
     "C10": dyn("Structural Jacobian sparsity of the SX and MX functions and bit-exact NumPy perturbation results are checked by TLC against the declarative dependency sets Metanet!Deps, also on networks reached by a construction detour with use in between.", "5/C10"),
     "C11": dyn("Family 'opts': the 64 option combinations over negative and positive inputs on NumPy, SX, MX; TLC compares with StepOpt = clamp o Step o clamp and checks bit-exactly the metamorphic relation against the plain step on hand-clamped inputs.", "5/C11"),
     "C12": life("Histories of steps/compilations/initialisations with caller-owned arrays and symbols: after every call every caller-owned object, the supplied dictionary and all element parameters are compared with pristine copies; every NumPy step from caller values is compared bit for bit with a fresh network. In addition, on every enumerated topology of the dynamics engine: caller arrays unchanged after one and two steps, and bit-identical next states when stepping again from the same dictionary and from fresh copies (clauses np.heap, np.repeat of Trace_Dyn).", "5/C12"),
     "C13": life("All sequences of use(name|instance|bad name) and steps/initialisations with and without explicit engines for all (selected, explicit) pairs: the selected engine is a spy that must stay silent when an explicit engine is passed; kinds of all variables match; selection only changes through use(). In addition, on every enumerated topology of the dynamics engine a recording engine is selected while another engine is passed explicitly (three kind pairs): the recording engine must compute nothing, all variables and next states have the explicit kind, the selection survives (clauses spy.* of Trace_Dyn).", "5/C13"),
     "C14": dyn("Related networks (permuted/bulk/path construction histories with random names, equal names, turn rates scaled per node) stepped by the real library from the same values must give the next states of the base network; exact invariance under scaling is a theorem checked on the specification.", "5/C14"),
-    "C15": {"engine": "prim", "text": "Full product grids per primitive (boundaries, ties, every branch), enumerated by TLC; NumPy and CasADi implementations called on each point as 0-d / length-1 / length-3 arguments and validated by TLC against the scalar laws and against each other.", "design_ref": "5/C15",
+    "C15": {"engine": "prim", "text": "Full product grids per primitive (boundaries, ties, every branch), enumerated by TLC; NumPy and CasADi implementations called on each point as NumPy scalar / 0-d array / length-1 / length-3 arguments (the NumPy primitive twice on the same argument objects) and validated by TLC against the scalar laws and against each other.", "design_ref": "5/C15",
             "note": "Trusted: TLC + Real.class; grids are finite samples placed on every boundary of the laws.",
             "technique": "TLA+ scalar laws (Laws.tla) + TLC-enumerated grids (Prim.tla, gen) called on both engines + TLC validation of the recorded results (Prim.tla, check)"},
     "C16": dyn("Functions compiled with symbolic parameter subsets (singletons, pairs, full set; per-element and shared symbols; SX and MX; levels 0 and 2) are evaluated at two parameter points; TLC substitutes the values into the specification's network and compares; trailing positions / stacked p per Compile!ParamEntries.", "5/C16"),
     "C17": dyn("TLC checks the origin-flow bounds and next-queue non-negativity on the q_o / w+ outputs of compiled functions and on the NumPy next queues for every admissible enumerated case, on both engines' origin primitives over full grids, and as exact theorems on the specification.", "5/C17"),
     "C18": dyn("Family 'neutral': each case runs against its uncontrolled twin generated by the specification (plain links; swapped ramp variant; unbounded desired flow; infinite limits): equal next states when controls are neutral, next speeds never higher and everything else equal under finite limits; the same relation is an exact theorem on the specification.", "5/C18"),
-    "C19": life("All interleavings of whole-network steps, per-element init/step, init-all, late replacements and compilations up to the depth bound: RuntimeError iff the specification's Ready fails (uninitialised, unstepped or stale next states); returned functions have no free symbols and their values equal StepOpt with the parameters of the most recent step. Replayed with distinct names, shared names and recycled object addresses; a history-complete profile covers state hidden inside engines and elements.", "5/C19"),
+    "C19": life("All interleavings of whole-network steps, per-element init/step, init-all, late replacements and compilations up to the depth bound: RuntimeError iff the specification's Ready fails (uninitialised, unstepped or stale next states); returned functions have no free symbols and their values equal StepOpt with the parameters of the most recent step. Replayed with distinct names, shared names and recycled object addresses; a history-complete profile covers state hidden inside engines and elements. Second component (Session.tla, the composition of NetBuild with the lifecycle over ARBITRARY graphs): elements added, replaced and re-attached through the construction API between steps, steps that fail half-way or at the last link, per-element steps; RuntimeError iff the specification's Ready fails on the present graph, functions free of free symbols and numerically equal to the step of the network built.", "5/C19"),
 }
+for _p in ("C07", "C19"):
+    CHECKS[_p]["technique"] += SESS_TECH
 ENGINES = [
     {"name": "dyn", "path": "tla/Real.tla tla/Real.java tla/Laws.tla tla/Metanet.tla tla/Compile.tla tla/DynCases.tla tla/Trace_Dyn.tla harness/dyncheck.py harness/dynrun.py",
      "serves_properties": [p for p, c in sorted(CHECKS.items()) if c["engine"] == "dyn"],
@@ -60,6 +64,8 @@ ENGINES = [
      "serves_properties": ["C06", "C08", "C09"], "kind_free_text": "TLA+ state machine of the construction API, caches and validation; exhaustive TLC exploration replayed into the code + trace validation"},
     {"name": "life", "path": "tla/Lifecycle.tla tla/MC_Life.tla harness/lifecheck.py harness/liferun.py",
      "serves_properties": ["C12", "C13", "C19"], "kind_free_text": "TLA+ state machine of engine selection / init / step / compile readiness; exhaustive TLC exploration replayed into the code"},
+    {"name": "session", "path": "tla/NetBuild.tla tla/Session.tla tla/MC_Session.tla tla/MC_Session.cfg harness/sesscheck.py harness/sessrun.py",
+     "serves_properties": ["C07", "C19"], "kind_free_text": "TLA+ composition of the construction state machine with the element lifecycle over arbitrary graphs; exhaustive TLC exploration of user sessions replayed into the code"},
     {"name": "prim", "path": "tla/Laws.tla tla/Prim.tla harness/primcheck.py harness/primrun.py",
      "serves_properties": ["C15", "C17"], "kind_free_text": "scalar laws + TLC-enumerated grids for every engine primitive"},
 ]
